@@ -11,7 +11,7 @@ def run(tier, seed):
     cfg = "MC_HistPool_c05q" if tier == "quick" else "MC_HistPool_c05t"
     emb = [("dyadic", 0), ("ulp", 1)] if tier == "quick" else [("dyadic", 0), ("ulp", 1), ("decimal", 2), ("huge", 0), ("neg", 1)]
     run_pool(ctx, cfg, ["New", "Add", "IAdd", "AddRefused", "IAddRefused", "ForeignRefused", "Copy"], VIEW, emb,
-             budget=60000 if tier == "quick" else 400000)
+             budget=60000 if tier == "quick" else 400000, free_too=True)
     extra(ctx, tier)
     from props import collection
     collection.run_part(ctx, tier)       # HistogramCollection: create / add / sum / normalize_* / copy / round trip / refusals
